@@ -13,6 +13,7 @@ is the *correct* answer at the second one and is accepted (`C05_history` says ex
 import WowSrp.Model.Srp
 import WowSrp.Lemmas.Layout
 namespace WowSrp
+open WowSrp.Layout
 
 /-- one reconnect attempt as the server sees it: the client's challenge bytes, the presented proof,
     and the 16 bytes the server draws *after* that attempt -/
